@@ -277,6 +277,9 @@ def run_kani(unit, cfg, text, scratch, jobs=8, only=None, playback=False):
             continue
         r.obligations.append({"id": obligation_id(props, name), "props": props, "clause": note, "backend": "kani/cbmc", "unit": unit.name})
     cmd = ["cargo", "kani"] + ([] if playback else ["-j", str(jobs)]) + ["--output-format", "terse"] + list(unit.kani_flags)
+    if not playback and "--harness-timeout" not in cmd:
+        # one slow harness (a changed operator can turn a cheap query into a divider-versus-divider one) must not hide the verdicts of the others
+        cmd += ["-Z", "unstable-options", "--harness-timeout", os.environ.get("VERIF_KANI_HARNESS_TIMEOUT", "300") + "s"]
     if playback:
         cmd += ["-Z", "concrete-playback", "--concrete-playback=print"]
     for h in (only or []):
@@ -306,6 +309,22 @@ def run_kani(unit, cfg, text, scratch, jobs=8, only=None, playback=False):
     res = {}
     blocks = {}
     failed_set = set(m.group(1).split("::")[-1] for m in re.finditer(r"Verification failed for - ([\w:]+)", out))
+    # a harness whose solver ran out of time is UNDECIDED, not failed: Kani lists it among the failures ("CBMC timed out")
+    thread_of, cur, timed_out = {}, None, set()
+    for line in out.split("\n"):
+        m = re.match(r"(?:Thread (\d+): )?Checking harness ([\w:]+)\.\.\.", line)
+        if m:
+            thread_of[m.group(1) or "-"] = m.group(2).split("::")[-1]
+            if m.group(1) is None:
+                cur = "-"
+            continue
+        m = re.match(r"Thread (\d+):\s*$", line)
+        if m:
+            cur = m.group(1)
+            continue
+        if "CBMC timed out" in line and cur in thread_of:
+            timed_out.add(thread_of[cur])
+    r.timeouts = []
     mt = re.search(r"Complete - (\d+) successfully verified harnesses, (\d+) failures, (\d+) total", out)
     for m in re.finditer(r"Verification Time: ([\d.]+)s", out):
         r.solver_s += float(m.group(1))
@@ -327,13 +346,15 @@ def run_kani(unit, cfg, text, scratch, jobs=8, only=None, playback=False):
         r.undecided = "kani summary (%d failures) disagrees with the list of failed harnesses %s" % (nfail, sorted(failed_set))
         return r
     for h in wanted:
-        res[h] = "FAILED" if h in failed_set else "SUCCESSFUL"
+        res[h] = "TIMEOUT" if (h in timed_out and h in failed_set) else ("FAILED" if h in failed_set else "SUCCESSFUL")
     for h in wanted:
         props, name, note = harnesses[h]
         if h == "canary_must_fail":
             continue
         if res.get(h) == "SUCCESSFUL":
             r.verified_count += 1
+        elif res.get(h) == "TIMEOUT":
+            r.timeouts.append(obligation_id(props, name))
         else:
             r.error_count += 1
             blk = "\n".join(blocks.get(h, []))
